@@ -19,15 +19,16 @@ BUDGET = {
     "thorough": {"runs": 120_000, "wall": 1500, "chunk": 100, "minimise": 200},
 }
 REQUIRED_PROBES = {"quick": ("multi_block", "both_directions", "chunked", "corrupt_first", "corrupt_middle",
-                             "corrupt_last", "nak_seen", "message_after_nak"),
+                             "corrupt_last", "nak_seen", "message_after_nak", "concurrent_senders"),
                    "thorough": ("multi_block", "both_directions", "chunked", "corrupt_first", "corrupt_middle",
-                                "corrupt_last", "nak_seen", "message_after_nak")}
+                                "corrupt_last", "nak_seen", "message_after_nak", "concurrent_senders")}
 EVIDENCE = {
     "level": "exploration",
     "rule": ("seeded sequences of single- and multi-block messages in both directions (one initiation at a time), "
              "seeded chunking of the line byte stream (1 byte .. whole block, with gaps) and at most one corrupted "
              "byte in header/data/checksum of a chosen block per message, threads descheduled just before a "
-             "synchronisation call; non-trivial = chunked line or a corrupted block; distinct = distinct (mode, "
+             "synchronisation call; at the end of a third of the runs two threads of one side send two messages at "
+             "the same time (interleaved blocks); non-trivial = chunked line or a corrupted block; distinct = distinct (mode, "
              "chunk mode, per-message (direction, #blocks, corrupt class)) tuples"),
     "real": ["secsgem.secsi.SecsIProtocol (both endpoints, or one against the reference peer)",
              "secsgem.common.SerialConnection", "secsgem.common.ProtocolDispatcher", "secsgem.common.ByteQueue"],
@@ -65,6 +66,10 @@ def gen_plan(rng, tier, index):
     plan = {"mode": rng.choice(["two_real", "two_real", "ref_peer"]), "messages": msgs,
             "chunk": rng.choice(["whole", "bytes", "random", "small", "random"]),
             "chunk_gap": rng.choice([0, 0.0002, 0.004]), "a_is_host": rng.random() < 0.5, "device": rng.choice([0, 7, 0x7FFF])}
+    # at the end two application threads of one side send two messages at the same time (their blocks interleave on
+    # the line; still only one side transmits)
+    plan["pair"] = [rng.randrange(2), rng.choice([10, 245, 300, 489, 700, 1000]), rng.choice([0, 244, 250, 500, 733]),
+                    rng.getrandbits(32)] if rng.random() < 0.35 else None
     sched = dict(rng.choice(SCHEDS))
     sched["seed"] = rng.getrandbits(48)
     if rng.random() < 0.4:
@@ -247,6 +252,70 @@ def run(sim, plan):
         if delivered and len(delivered) != len(mine):
             sim.violation("C17.R2", f"{desc}: unrelated deliveries {[(m['system'], len(m['body'])) for m in delivered]}",
                           sig="C17.R2|unrelated-delivery")
+    pair = plan.get("pair")
+    if pair is not None and not after_nak:
+        direction, n1, n2, seed = pair
+        src = "SIMA" if direction == 0 else "SIMB"
+        dst = "SIMB" if direction == 0 else "SIMA"
+        src_is_host = a_host if src == "SIMA" else not a_host
+        target.update(src=None)
+        rnd = random.Random(seed)
+        specs = []
+        for n in (n1, n2):
+            system += 1
+            specs.append((system, n, rnd.randbytes(n), {"ok": None, "done": False}))
+        dst_rec_before = len(recs[dst].received) if dst in recs else len(peer.messages)
+        n_blocks_before = len(mon.blocks)
+        total_blocks = sum(max(1, (n + 243) // 244) for _s, n, _b, _r in specs)
+        budget = 20 + total_blocks * 0.8 + (n1 + n2 + 20 * total_blocks) * slow
+        sim.probe("concurrent_senders")
+        if src in ends:
+            proto = ends[src]
+            sim.focus(2)
+            for sysb, n, body, result in specs:
+                def send(proto=proto, sysb=sysb, body=body, result=result):
+                    hdr = SecsIHeader(sysb, device, 7, 3, require_response=False, from_equipment=not src_is_host)
+                    result["ok"] = proto.send_message(SecsIMessage(hdr, body))
+                    result["done"] = True
+
+                sim.spawn(send, f"app_send_{sysb:x}", role="app")
+            if not sim.wait_until(lambda: all(r["done"] for _s, _n, _b, r in specs), budget):
+                sim.violation("C17.R4", "two concurrent sends of one endpoint did not both return",
+                              sig="C17.R4|send-stuck|concurrent")
+        else:
+            # the reference peer interleaves the blocks of its two messages
+            per = [[b.encode() for b in rc.split_message(device, not src_is_host, False, 7, 3, sysb, body)]
+                   for sysb, _n, body, _r in specs]
+            inter = []
+            for i in range(max(len(x) for x in per)):
+                inter += [x[i] for x in per if i < len(x)]
+            r0 = len(peer.tx_results)
+            peer.send_blocks(inter)
+            sim.wait_until(lambda: len(peer.tx_results) - r0 >= len(inter), budget)
+            ok = [r for _b, r in peer.tx_results[r0:]] == ["ack"] * len(inter)
+            for _s, _n, _b, result in specs:
+                result["ok"] = ok
+        sim.advance(0.3 + 20 * slow)
+        delivered = (recs[dst].received[dst_rec_before:] if dst in recs else peer.messages[dst_rec_before:])
+        for sysb, n, body, result in specs:
+            mine = [m for m in delivered if m["system"] == sysb]
+            desc = f"message #{sysb:#x} {src}->{dst} ({n} bytes) sent concurrently with another message of the same side"
+            if result["ok"] is not True:
+                sim.violation("C17.R2", f"{desc}: send reported {result['ok']} on a fault-free line",
+                              sig="C17.R2|send-failed|concurrent")
+            if len(mine) != 1:
+                sim.violation("C17.R2", f"{desc}: send reported success, delivered {len(mine)} times",
+                              sig=f"C17.R2|delivered-{min(len(mine), 2)}|concurrent")
+            if (mine[0]["stream"], mine[0]["function"], mine[0]["body"]) != (7, 3, body):
+                sim.violation("C17.R2", f"{desc}: delivered with different header/body ({len(mine[0]['body'])} bytes)",
+                              sig="C17.R2|content|concurrent")
+        if len(delivered) != 2:
+            sim.violation("C17.R2", f"concurrent sends: deliveries {[(m['system'], len(m['body'])) for m in delivered]}",
+                          sig="C17.R2|unrelated-delivery|concurrent")
+        new_blocks = mon.blocks[n_blocks_before:]
+        if any(b["result"] != "ack" for b in new_blocks) or len(new_blocks) != total_blocks:
+            sim.violation("C17.R1", f"concurrent sends: {len(new_blocks)} blocks on the line (expected {total_blocks}) with "
+                          f"results {[b['result'] for b in new_blocks]}", sig="C17.R1|block-results|concurrent")
     if len(dirs) == 2:
         sim.probe("both_directions")
     # R1: the ENQ/EOT/block/ACK-NAK discipline over the whole run
